@@ -9,3 +9,6 @@ def run(ctx):
                 "with recording validator/network/transport doubles; C04.validated/refused/faithful/noPanic judged by TLC on the observations; non-trivial = request or revalidation step")
     ctx.assumptions += ["synchronous engine abstraction (handlers flush the queue first)", "doubles at the network/transport/validator boundary"]
     stages.mgr_family(ctx, ["C04."], ["c04"], lambda s: s["stim"]["kind"] in ("RecvRequest", "OnRequestReceived", "UpdateValidation"), quick_n=4000, invariants=INV)
+    # two-node replays of Sys.tla behaviours on two real managers: C04 rules of SysJudge and of the manager judge on every step of either node
+    from props import c01 as _c01
+    _c01.sys_replay(ctx, prefixes=["C04."], n_quick=10, n_thorough=60)
